@@ -71,6 +71,8 @@ MInit ==
      ninv    |-> 0,          \* operation invocations in this run
      phase   |-> "idle",     \* idle | inv | failed | ok | end
      lastout |-> "-",        \* outcome of the last invocation
+     eobj    |-> None,       \* identity of the exception object raised last ("excsame" re-raises it)
+     lastobj |-> None,       \* identity of the object the last invocation raised / returned
      invt1   |-> 0,          \* elapsed time when the last invocation returned
      nfail   |-> ZeroCount,  \* classified failures per class (this run)
      granted |-> ZeroCount,  \* invocations that directly followed a failure of class k
@@ -173,7 +175,9 @@ OnInvoke(c, m, ev) ==
           <<m.phase # "inv",                             "C03:attempt-outcome-not-processed">>,
           <<m.terminal = "-",                            "C14:event-after-terminal">> >>)
         m2 == EpisodeReset(m1)
+        obj == IF ev.out = "excsame" /\ m.eobj # None THEN m.eobj ELSE m.ninv + 1
     IN  [m2 EXCEPT !.ninv = @ + 1, !.granted = g1, !.lastout = ev.out, !.invt1 = ev.t1,
+                   !.eobj = IF ev.out \in {"exc", "excsame"} THEN obj ELSE @, !.lastobj = obj,
                    !.pollSince = FALSE,
                    !.phase = IF ev.out = "ok" /\ ~c.rc THEN "ok" ELSE "inv",
                    !.abortReq = @ \/ ev.out = "abort",
@@ -212,7 +216,7 @@ OnRClassify(c, m, ev) ==
 
 OnClassify(c, m, ev) ==
     LET m1 == Checks(m, <<
-          <<m.phase = "inv" /\ m.lastout \in {"exc", "excsame"} /\ ev.n = m.ninv,
+          <<m.phase = "inv" /\ m.lastout \in {"exc", "excsame"} /\ ev.n = m.lastobj,
                                            "C03:exception-classified-out-of-turn">>,
           <<~m.cancelOn,                   "C13:cancellation-classified">>,
           <<~m.abortReq,                   "C13:work-after-abort-request">> >>)
@@ -430,7 +434,7 @@ OnDeliverCall(c, m, ev) ==
           <<~m.cancelOn,                                 "C13:cancellation-swallowed">>,
           <<(v.kind = "ret") <=> (m.phase = "ok"),       "C04:returns-iff-an-attempt-succeeded">>,
           <<(v.kind = "ret") => v.id = m.ninv,           "C04:returned-object-is-first-success">>,
-          <<excStop => (v.kind = "exc" /\ v.id = m.lid /\ v.id = m.ninv /\ v.own),
+          <<excStop => (v.kind = "exc" /\ v.id = m.lid /\ v.id = m.lastobj /\ v.own),
                                                          "C04:raises-last-attempts-own-exception">>,
           <<(v.kind = "exc") => excStop,                 "C04:raised-exception-is-not-the-final-failure">>,
           <<resStop => v.kind = "exhausted",             "C04:result-or-deferral-raises-RetryExhaustedError">>,
